@@ -24,6 +24,12 @@ PROP = {
     "_ParametrizedGates built": "C06", "the fSim returned as dagger": "C06",
     "fusing a circuit that already": "C07", "frequencies(registers=True)": "C03",
     "shallow copies of a circuit": "C07",
+    "to_pauli_liouville builds": "C17", "NoiseModel.apply adds": "C19", "FSWAP.decompose goes": "C08",
+    "every decompose method accepts": "C08", "execution results own": "C14",
+    "expectation_from_samples of a symbolic term": "C15", "a symbolic Hamiltonian without terms": "C15",
+    "SymbolicTerm accepts nested": "C15", "the matrix and form setters": "C15",
+    "the matrix of GeneralizedfSim": "C13", "bit-flip probabilities given": "C13", "a FusedGate is serialised": "C13",
+    "to_qasm raises for circuits": "C13", "MeasurementOutcomes.from_dict and": "C13",
     "SymbolicTerm applies": "C15", "StateEvolution takes": "C16", "von_neumann_entropy of a state vector": "C18",
 }
 
